@@ -215,6 +215,44 @@ func Request(m Model, pkgImport string) ([]byte, error) {
 	return buf.Bytes(), nil
 }
 
+// defWord is the first data word of the default value of struct field f.
+func defWord(f Field) uint64 {
+	if f.DefWord != 0 {
+		return f.DefWord
+	}
+	return markerWord
+}
+
+// defaultList builds the default value of list field f: DefLen elements (zero-valued; text/data entries null).
+func defaultList(m Model, seg *capnp.Segment, f Field) (capnp.List, error) {
+	n := int32(f.DefLen)
+	switch f.Elem {
+	case "void":
+		return capnp.NewVoidList(seg, n).List, nil
+	case "bool":
+		l, err := capnp.NewBitList(seg, n)
+		return l.List, err
+	case "int8", "uint8":
+		l, err := capnp.NewUInt8List(seg, n)
+		return l.List, err
+	case "int16", "uint16", "enum":
+		l, err := capnp.NewUInt16List(seg, n)
+		return l.List, err
+	case "int32", "uint32", "float32":
+		l, err := capnp.NewUInt32List(seg, n)
+		return l.List, err
+	case "int64", "uint64", "float64":
+		l, err := capnp.NewUInt64List(seg, n)
+		return l.List, err
+	case "struct":
+		t := m.Structs[f.ElemRef]
+		return capnp.NewCompositeList(seg, capnp.ObjectSize{DataSize: capnp.Size(t.DataWords * 8), PointerCount: uint16(t.Ptrs)}, n)
+	default: // text, data, list
+		l, err := capnp.NewPointerList(seg, n)
+		return l.List, err
+	}
+}
+
 // nameAnnotation writes a one-element annotation list holding $Go.name(name).
 func nameAnnotation(newList func(int32) (schema.Annotation_List, error), name string) error {
 	anns, err := newList(1)
@@ -336,12 +374,19 @@ func setDefault(m Model, v schema.Value, f Field) error {
 				return err
 			}
 			if t.DataWords > 0 {
-				st.SetUint64(0, markerWord)
+				st.SetUint64(0, defWord(f))
 			}
 			return v.SetStructValue(st.ToPtr())
 		}
 		return v.SetStructValue(capnp.Ptr{})
 	case "list":
+		if f.HasDef && f.DefLen > 0 {
+			l, err := defaultList(m, v.Segment(), f)
+			if err != nil {
+				return err
+			}
+			return v.SetList(l.ToPtr())
+		}
 		return v.SetList(capnp.Ptr{})
 	case "anyptr":
 		return v.SetAnyPointer(capnp.Ptr{})
@@ -503,7 +548,7 @@ func CheckFile(m Model) string {
 					if f.HasDef {
 						w0 := uint64(0)
 						if t.DataWords > 0 {
-							w0 = markerWord
+							w0 = defWord(f)
 						}
 						def = fmt.Sprintf("struct data=%d ptrs=%d w0=%#x", t.DataWords*8, t.Ptrs, w0)
 					}
@@ -547,7 +592,11 @@ func CheckFile(m Model) string {
 					p("\t\tSet: func(st capnp.Struct) (string, error) { var l %s; l, err := %s.New%s(3); if err != nil { return \"\", err }; %sreturn rt.DescList(l.List), nil },", lt, E, F, extra)
 					p("\t\tGet: func(st capnp.Struct) (string, error) { l, err := %s.%s(); return rt.DescList(l.List), err },", E, F)
 					p("\t\tHas: func(st capnp.Struct) bool { return %s.Has%s() },", E, F)
-					p("\t\tHasDefault: true, Default: \"null\"}, %s)", which)
+					ldef := "null"
+					if f.HasDef && f.DefLen > 0 {
+						ldef = fmt.Sprintf("list len=%d", f.DefLen)
+					}
+					p("\t\tHasDefault: true, Default: %q}, %s)", ldef, which)
 				case "interface":
 					it := m.Ifaces[f.Ref].Name
 					p("\trt.CheckPtr(t, %s, rt.PtrOps{", spec)
